@@ -259,6 +259,78 @@ def rule_r1(repo):
     return rr
 
 
+def _full_worker(job):
+    """One chunk of paths (worker process): returns [(kind, path, detail)] for disagreements."""
+    root, paths = job
+    from sa.model import Repo
+    repo = Repo(root)
+    tree = build_tree(0)
+    js = render_json(repo, *tree)
+    msg = make_message([tree], False)
+    out = []
+    for path in paths:
+        sub, comps = parse_ref(path)
+        try:
+            want = ('ok', ref_query(js, comps))
+        except RefError:
+            want = ('error', None)
+        fi, r = run_query(repo, msg, path)
+        if want[0] == 'error':
+            if r.ok or not (repo.has_cls(r.exc.cls) and repo.is_subclass(r.exc.cls, 'PyBufrKitError')):
+                out.append(('error', path, 'designates no value (valueless target or a step into a leaf) but gives %s' % (result_values(r) if r.ok else r.exc.cls)))
+            continue
+        if not r.ok:
+            out.append(('raises', path, 'raises %s; the nested rendering gives %r' % (r.exc.cls, want[1])))
+            continue
+        got = result_values(r)
+        if got != {0: want[1]}:
+            out.append(('value', path, 'returns %r; the nested rendering gives %r' % (got, {0: want[1]})))
+    return out
+
+
+def rule_r1_full(repo):
+    """Thorough tier: every path of one or two steps, and three-step paths through the containers, over the ids of the tree with a
+    slice from a fixed set (16 worker processes)."""
+    rr = RuleResult('C16.R1t', 'all paths of up to three steps over the tree ids x slice shapes, against the reference evaluation')
+    import itertools
+    import multiprocessing
+    ids = ['001001', '340011', '012101', '102000', '102002', '101002', '004002', '007004', '020003', '020004', '031001', 'A12101', '033007', 'F12101']
+    containers = ['340011', '012101', '102000', '102002', '101002']
+    slices = ['', '[0]', '[1]', '[-1]', '[::2]', '[1:]']
+    paths = []
+    for a in ids:
+        for sa_ in slices:
+            paths.append('/' + a + sa_)
+    n1 = len(paths)
+    for a, b in itertools.product(ids, repeat=2):
+        for sep in '/.':
+            for sa_, sb in itertools.product(slices, repeat=2):
+                paths.append('/' + a + sa_ + sep + b + sb)
+    n2 = len(paths) - n1
+    for a in containers:
+        for b in containers + ['007004', '020004', 'A12101']:
+            for c in ids:
+                for s1, s2 in itertools.product('/.', repeat=2):
+                    for sa_ in slices[:3]:
+                        for sc in slices[:4]:
+                            paths.append('/' + a + sa_ + s1 + b + s2 + c + sc)
+    n3 = len(paths) - n1 - n2
+    chunk = 400
+    jobs = [(repo.root, paths[i:i + chunk]) for i in range(0, len(paths), chunk)]
+    with multiprocessing.Pool(16) as pool:
+        res = pool.map(_full_worker, jobs)
+    fi = repo.own_method('DataQuerent', 'query')
+    for lst in res:
+        for kind, path, detail in lst:
+            rr.fail('DataQuerent.query:full:%s' % kind, fi.where, 'query %r %s' % (path, detail), witness={'path': path})
+    rr.instance('%d one-step paths' % n1)
+    rr.instance('%d two-step paths' % n2)
+    rr.instance('%d three-step paths through the containers' % n3)
+    rr.extra = {'paths_folded': len(paths)}
+    rr.require_floor(3)
+    return rr
+
+
 def rule_r2(repo):
     rr = RuleResult('C16.R2', 'a bare ID returns every value carrying that ID in the flat data, in order')
     tree = build_tree(0)
@@ -341,6 +413,8 @@ def rule_r4(repo):
 
 def run(repo, check):
     check.run_rule(rule_r1, repo)
+    if check.tier == 'thorough':
+        check.run_rule(rule_r1_full, repo)
     check.run_rule(rule_r2, repo)
     check.run_rule(rule_r3, repo)
     check.run_rule(rule_r4, repo)
